@@ -413,7 +413,7 @@ fn run_world_inner(world: &World, plan: &[Rule], strace_out: Option<&Path>, fres
     out.log = log;
     collect_files(&root, &root, &mut out.files);
     if !out.shim_loaded {
-        eprintln!("HARNESS ERROR: shim sentinel missing from log (LD_PRELOAD not effective); stderr: {}", out.stderr);
+        eprintln!("HARNESS ERROR: shim sentinel missing from log (LD_PRELOAD not effective); exit {:?} signal {:?} timed_out {}; argv {:?}; env {:?}; stderr: {}", out.exit, out.signal, out.timed_out, world.argv, world.env, out.stderr);
         std::process::exit(2);
     }
     out
